@@ -237,6 +237,8 @@ def run(R):
         rs = [byid[i] for i in ids]
         R.count('equivalent-' + kind, rs[0]['desc'], nontrivial=True)
         errs = [r.get('grammar_error') for r in rs]
+        if 'unconfirmed-timeout' in errs:
+            continue                        # machine load, not an observation
         if any(errs):
             if not all(errs):
                 R.counterexample('equivalent-' + kind, 'one-spelling-is-rejected:' + kind,
